@@ -390,7 +390,7 @@ def run(tier, seed):
         rep.extra["walk_%s" % kind] = {"model_states": nstates, "edges_executed": nedges}
         # 3. long random behaviours from TLC (-simulate), replayed and logged
         if tier == "thorough":
-            num, depth, maxb = 300, 60, 300
+            num, depth, maxb = 150, 60, 150
         else:
             num, depth, maxb = 12, 40, 12
         rs = tlc.run("SignalCache", cfg=CFG % (kind, "FALSE", "TRUE"), workers=1, job="C04/sim_%s" % kind,
